@@ -54,8 +54,9 @@ def triple_text(t, k):
     return '(' + ':'.join(txt) + ')', [float(x) if x else 0.0 for x in txt]
 
 
-def sdf_name(n):
-    return n.replace('[', '\\[').replace(']', '\\]')
+def sdf_name(n, plain=False):
+    """brackets of a hierarchical name are escaped in SDF; writers differ; the reader removes the backslashes before it looks a name up, so both spellings name the same instance"""
+    return n if plain else n.replace('[', '\\[').replace(']', '\\]')
 
 
 def prop(case):
@@ -192,7 +193,7 @@ def prop(case):
                 arr[:, li, ip, 1] = nums[1]
         out.append('(CELL')
         out.append(f'  (CELLTYPE "{ctype}")')
-        out.append(f'  (INSTANCE {sdf_name(iname)})' if iname is not None else '  (INSTANCE)')
+        out.append(f'  (INSTANCE {sdf_name(iname, plain=(bi + case["seed"]) % 3 == 0)})' if iname is not None else '  (INSTANCE)')      # blocks of one instance may spell its name differently
         if bi % 3 == 1:
             out.append('  (TIMINGCHECK (WIDTH (posedge CLK) (0.284:0.284:0.284)) (SETUP (negedge D) (posedge CLK) (0.620:0.643:0.643)))')
         half = len(entries) // 2 if bi % 2 else len(entries)
